@@ -245,6 +245,33 @@ def accepted(run, exe, U, regex_extra=0, rnd=None):
         out[ev["eco"]] = [t for t, ok in zip(ev["texts"], ev["ok"]) if ok]
     return out
 
+BOUNDARY = [0, 9, 10, 255, 256, 65535, 65536, 65537, 99999, 1000000000, 2147483647, 2147483648, 4294967295, 4294967296,
+            20240115, 9007199254740993, 9223372036854775807, 9223372036854775808, 18446744073709551616]
+def boundary_variants(text, rnd, k):
+    """spellings of `text` with one digit run replaced by a number at which fixed-width keys change behaviour,
+    and with two runs replaced (a small number and a boundary number): neighbours of the text in the order"""
+    runs = list(re.finditer(r"[0-9]+", text))
+    out = []
+    for _ in range(k * 3):
+        if not runs or len(out) >= k: break
+        m = rnd.choice(runs)
+        v = text[:m.start()] + str(rnd.choice(BOUNDARY)) + text[m.end():]
+        if len(runs) > 1 and rnd.random() < 0.5:
+            rs = list(re.finditer(r"[0-9]+", v)); m2 = rnd.choice(rs)
+            v = v[:m2.start()] + str(rnd.choice([0, 0, 1, 9])) + v[m2.end():]
+        if v != text and v not in out: out.append(v)
+    return out
+
+def accept_filter(run, exe, cands, name="accx"):
+    """{eco: [texts]} -> the same, keeping only texts the real version parser accepts"""
+    jobs = [{"k": "accept", "eco": e, "texts": list(dict.fromkeys(cands[e]))} for e in sorted(cands) if cands[e]]
+    jp, ep = run.path(name + ".jobs"), run.path(name + ".ev")
+    write_ndjson(jp, jobs); run_harness(run, exe, jp, ep)
+    out = {e: [] for e in cands}
+    for ev in read_ndjson(ep):
+        out[ev["eco"]] = [t for t, ok in zip(ev["texts"], ev["ok"]) if ok]
+    return out
+
 def stratified(members, n, rnd):
     """seeded sample that covers as many distinct *shapes* as possible: members are grouped by their
     shape signature (digit runs -> 9, letter runs -> a) and picked round-robin over the groups"""
